@@ -215,6 +215,50 @@ POLICIES = [
 ]
 
 
+def stress_specs(chk: common.Check, n: int) -> list[dict]:
+    """several threads inside the trace machinery and the stdout hook at the same time, under a 1 µs thread-switch interval"""
+    rng = chk.rng
+    out = []
+    for i in range(n):
+        nt = rng.choice([3, 4, 6])
+        src, owners = progs.stress(random.Random(rng.randrange(1 << 30)), nt, rng.choice([60, 150, 300]), rng.choice([20, 60]))
+        pol = [{'kind': 'seq', 'commands': ['next', 'next'], 'then': 'continue'}, {'kind': 'all', 'command': 'continue'},
+               {'kind': 'seq', 'commands': ['next'] * 12, 'then': 'continue'}][i % 3]
+        out.append({'source': src, 'policy': pol, 'trace_threads': True, 'trace_modules': False, 'kind': 'stress', 'owners': owners,
+                    'decoys': i % 2 == 0, 'run_no': 5, 'timeout': 90, 'switchinterval': 1e-6, 'want_reference': False, 'want_recorder': False})
+    return out
+
+
+def captured_oracle(t: dict) -> list[str]:
+    """C13's statement on one traced run: what each thread/task wrote (ground truth: the writes that reached the real stdout,
+    keyed by the writing thread/task) is what was reported for some trace, up to that entity's last newline, and nothing else"""
+    per: dict = {}
+    for k, s in t['writes']:
+        per[k] = per.get(k, '') + s
+    want = sorted(x[:x.rfind('\n') + 1] for x in per.values() if '\n' in x)
+    cap: dict = {}
+    bad_piece = []
+    for e in t['events']:
+        if e['_type'] == 'OnWriteStdout':
+            cap[e['trace_no']] = cap.get(e['trace_no'], '') + e['text']
+            if not e['text'].endswith('\n'):
+                bad_piece.append(e['text'])
+    got = sorted(v for v in cap.values() if v)
+    msgs = []
+    if bad_piece:
+        msgs.append(f'a reported piece does not end at a line end: {bad_piece[0]!r}')
+    if got != want:
+        # first differing entity
+        for a, b in zip(got, want):
+            if a != b:
+                k = next((i for i, (x, y) in enumerate(zip(a, b)) if x != y), min(len(a), len(b)))
+                msgs.append(f'reported text differs from what the thread/task wrote, from position {k}: reported …{a[max(0, k - 20):k + 30]!r}, written …{b[max(0, k - 20):k + 30]!r}')
+                break
+        else:
+            msgs.append(f'{len(got)} traces reported output, {len(want)} threads/tasks wrote complete lines')
+    return msgs
+
+
 def gen_specs(chk: common.Check, nseq: int, nconc: int, with_modules: bool = True) -> list[dict]:
     rng = chk.rng
     specs: list[dict] = []
